@@ -178,6 +178,10 @@ def plan_C13(seed, run, engine, tier="quick", entry=None):
 
 # ---------------------------------------------------------------------- C19 / C20 use the catalogue
 
+_PLAIN_PENALTIES = ("L1", "L1_plus_L2", "MCPenalty", "SCAD", "L0_5", "L2_3", "LogSumPenalty",
+                    "IndicatorBox", "PositiveConstraint")      # no per-feature arguments
+
+
 def plan_C19(seed, run, engine, tier="quick", entry=None):
     from . import plans as P
     rng = G.rng_for(seed, "C19", run)
@@ -250,6 +254,19 @@ def plan_C19(seed, run, engine, tier="quick", entry=None):
             if kk in k:
                 kq[kk] = k[kk]
         ops.append(dict(op="quiesce", knobs=kq, storage=prob["storage"], optimum=False))
+    dk = (prob["data"].get("degen") or {}).get("kind")
+    if dk in ("zero_col", "zero_col_last", "zero_row") and solver in ("AndersonCD", "GramCD") \
+            and st in ("cold", "cold_buf") and prob["family"]["penalty"] in _PLAIN_PENALTIES \
+            and (dk != "zero_row" or prob["family"]["datafit"] == "QuadraticSVC") \
+            and (dk == "zero_row" or prob["family"]["datafit"] != "QuadraticSVC") and rng.random() < 0.7:
+        # a null column is decoupled from the rest of the problem: a cold quiescent solve may not
+        # need much longer than the same problem without it ("never ... fails to terminate")
+        kq = dict(tol=k["tol"], fit_intercept=k.get("fit_intercept", False))
+        for kk in ("p0", "ws_strategy", "use_acc", "greedy_cd"):
+            if kk in k:
+                kq[kk] = k[kk]
+        ops.append(dict(op="quiesce", knobs=kq, start="cold", storage=prob["storage"], optimum=False,
+                        liveness=False, twin_liveness=True))
     if rest and solver in ("AndersonCD", "MultiTaskBCD", "GramCD"):
         # "... never fails to terminate": coordinate descent with exact coordinate steps is
         # invariant under column scaling, so a blown-up column may not keep a well-conditioned
